@@ -113,10 +113,53 @@ DeltaContract(ev, M) ==
            \o Clause("new-index", after \subseteq before, after \ before)
       ELSE <<>>)
 
+(* -- simplify_unitary (C20) --------------------------------------------------- *)
+(* occurrences of index x in term t, with exponent multiplicity *)
+RECURSIVE OccObj(_, _)
+OccObj(o, x) ==
+  IF o.k = "P" THEN 0
+  ELSE (IF o.e < 0 THEN 0 - o.e ELSE o.e) *
+       (Cardinality({k \in 1..Len(o.u) : o.u[k] = x}) + Cardinality({k \in 1..Len(o.l) : o.l[k] = x}))
+OccTerm(t, x) == FoldSet(LAMBDA k, a : a + OccObj(t.objs[k], x), 0, 1..Len(t.objs))
+
+ObjIdxSeq(o) == IF o.k = "M" THEN o.l \o o.u ELSE o.u \o o.l      \* Obj.idx
+
+(* transcription of the enabling condition of simplify_unitary: some pair  *)
+(* of U factors (a factor with exponent >= 2 pairs with itself) shares the *)
+(* first or the second index, not a target, occurring exactly twice        *)
+ResolvableTerm(t, tg, nidU) ==
+  LET us == {k \in 1..Len(t.objs) : t.objs[k].nid = nidU /\ t.objs[k].k # "D" /\ t.objs[k].k # "P"}
+  IN \E a, b \in us :
+       /\ (a < b \/ (a = b /\ t.objs[a].e >= 2))
+       /\ \E z \in {1, 2} :
+            LET x == ObjIdxSeq(t.objs[a])[z] IN
+            x = ObjIdxSeq(t.objs[b])[z] /\ x \notin tg /\ OccTerm(t, x) = 2
+
+StripOrd(t) == [t EXCEPT !.ord = <<>>]
+TermBagOf(x) == SeqBag([k \in 1..Len(x) |-> StripOrd(x[k])])
+
+UnitaryContract(ev, M) ==
+  LET nidU == M.rU
+      tg == SeqRange(ev.tgt)
+      uobjs == UNION {{t.objs[k] : k \in {j \in 1..Len(t.objs) : t.objs[j].nid = nidU /\ t.objs[j].k \notin {"D", "P"}}} :
+                      t \in SeqRange(ev.pre)}
+      spaces == UNION {{ev.idx[i].s : i \in ObjIdx(o)} : o \in uobjs}
+      R == IF spaces = {} THEN {} ELSE
+           IdxRange([n |-> "x", s |-> (CHOOSE sp \in spaces : TRUE), p |-> ""], M)
+  IN IF Cardinality(spaces) > 1 \/ ~UnitaryCertified(M, R)
+     THEN << <<"MACHINERY-cert", "the proposed matrix is not orthogonal on the index space of U">> >>
+     ELSE ValEq(ev, M, ev.pre, ev.post)
+          \o Clause("untouched",
+                    (\E k \in 1..Len(ev.pre) : ResolvableTerm(ev.pre[k], tg, nidU))
+                    \/ ev.a.evaluate_deltas
+                    \/ TermBagOf(ev.pre) = TermBagOf(ev.post),
+                    "no resolvable pair but the expression changed")
+
 (* -- the contract per operation ------------------------------------------ *)
 Contract(ev, M) ==
   CASE ev.op = "valpres" -> ValEq(ev, M, ev.pre, ev.post)
     [] ev.op = "simplify" -> SimplifyContract(ev, M)
     [] ev.op = "evaluate_deltas" -> DeltaContract(ev, M)
+    [] ev.op = "simplify_unitary" -> UnitaryContract(ev, M)
     [] OTHER -> << <<"unknown-op", ev.op>> >>
 =============================================================================
